@@ -8,6 +8,7 @@ import (
 	"math"
 	"math/big"
 	"os"
+	"reflect"
 	"strings"
 	"sync"
 
@@ -228,6 +229,49 @@ func soilParams(e ev, g *hermes.GlobalVarsMain) {
 	e["WNOR"] = fxs("WNOR", g.WNOR[:n], 9)
 	e["WRED"] = fx("WRED", g.WRED, 9)
 	e["grw"] = fx("GRW", g.GRW, 6)
+}
+
+// scanFinite walks all float64 fields (scalars, arrays, slices, nested arrays) of the state struct and
+// records the names of non finite values.
+func scanFinite(g *hermes.GlobalVarsMain) {
+	v := reflect.ValueOf(g).Elem()
+	t := v.Type()
+	var walk func(name string, x reflect.Value)
+	walk = func(name string, x reflect.Value) {
+		switch x.Kind() {
+		case reflect.Float64:
+			f := x.Float()
+			if math.IsNaN(f) || math.IsInf(f, 0) {
+				nonFinite = append(nonFinite, name)
+			}
+		case reflect.Array, reflect.Slice:
+			if x.Len() > 0 {
+				k := x.Index(0).Kind()
+				if k != reflect.Float64 && k != reflect.Array && k != reflect.Slice {
+					return
+				}
+			}
+			for i := 0; i < x.Len(); i++ {
+				walk(fmt.Sprintf("%s[%d]", name, i), x.Index(i))
+				if len(nonFinite) > 8 {
+					return
+				}
+			}
+		case reflect.Struct:
+			if x.Type().Name() == "DualType" {
+				walk(name+".Num", x.FieldByName("Num"))
+			}
+		}
+	}
+	for i := 0; i < v.NumField(); i++ {
+		if !t.Field(i).IsExported() {
+			continue
+		}
+		walk(t.Field(i).Name, v.Field(i))
+		if len(nonFinite) > 8 {
+			return
+		}
+	}
 }
 
 func storage(name string, wg []float64, dz float64) limb { return sumLimb(name, wg, dz, eW) }
@@ -488,6 +532,7 @@ func (t *runTracer) probe(point string, g *hermes.GlobalVarsMain, extra ...inter
 		e["S"] = storage("Send", g.WG[1][:n], g.DZ.Num)
 		e["WG1"] = fxs("WG1", g.WG[1][:n], 9)
 		e["n2oden"] = fx("N2Odencum", g.N2Odencum, 6)
+		scanFinite(g)
 	case "day.end":
 		zeit := extra[0].(int)
 		e["zeit"] = zeit
